@@ -20,6 +20,7 @@ import (
 	"sync"
 	"sync/atomic"
 	"time"
+	"unsafe"
 
 	"github.com/influxdata/influxdb/v2/kit/platform"
 	psnow "github.com/influxdata/influxdb/v2/pkg/snowflake"
@@ -35,6 +36,7 @@ type genSpec struct {
 	Callers int    `json:"callers"`
 	Calls   int    `json:"calls"`
 	Pause   bool   `json:"pause"` // callers pause now and then so the clock overtakes the state
+	Ahead   int    `json:"ahead"` // bulk only: first one caller generates until the state's time is this many ms ahead of the wall clock
 	Bulk    bool   `json:"bulk"`  // many calls: the ids are written as one summary line per time value instead of one line per id
 	Sync    bool   `json:"sync"`  // lock-step rounds: all callers enter Next() at the same moment (maximal CAS contention)
 }
@@ -44,10 +46,12 @@ type tcase struct {
 	Str     []string `json:"str"`
 	L       int      `json:"L"`
 	Verdict struct {
+		Pos         int      `json:"pos"`
 		Decode      string   `json:"decode"`
 		Err         string   `json:"err"`
 		ReencodesTo []string `json:"reencodesTo"`
 	} `json:"verdict"`
+	Point bool      `json:"point"`
 	NConc int       `json:"nconc"`
 	Conc  int       `json:"conc"`
 	Out   string    `json:"out"`
@@ -71,7 +75,7 @@ func pick(rng *rand.Rand, class string, n int) string {
 		case "X":
 			x := xchars[rng.Intn(len(xchars))]
 			if b.Len()+len(x) > n {
-				x = "g"
+				x = string([]byte{"gzGZ +-_xX:\x00\n/.\x10\x19\x7f\xff"[rng.Intn(20)]})
 			}
 			b.WriteString(x)
 		}
@@ -119,6 +123,20 @@ func concretise(rng *rand.Rand, str []string, L int) string {
 	return b.String()
 }
 
+func classOf(c byte) string {
+	switch {
+	case c == '0':
+		return "Z"
+	case c >= '1' && c <= '9':
+		return "D"
+	case c >= 'a' && c <= 'f':
+		return "L"
+	case c >= 'A' && c <= 'F':
+		return "U"
+	}
+	return "X"
+}
+
 func isHex(c byte) bool { return c >= '0' && c <= '9' || c >= 'a' && c <= 'f' || c >= 'A' && c <= 'F' }
 
 // upperPattern: F15. input is 16 hex characters containing an upper-case letter, and its lower-cased form is a
@@ -144,8 +162,30 @@ func runCodec(c *tcase, env *rt.Env) rt.Result {
 	evals := 0
 	var drift []string
 	seen := map[string]bool{}
-	for k := 0; k < max(1, c.NConc); k++ {
-		s := concretise(rng, c.Str, c.L)
+	var cands []string
+	if c.Point {
+		// byte-exhaustive single-position mutation: one concrete character per abstract one; the position the spec
+		// marks takes EVERY byte value of its class (234 values for class X)
+		pos := c.Verdict.Pos - 1
+		for k := 0; k < max(1, c.NConc); k++ {
+			base := make([]byte, len(c.Str))
+			for i, cl := range c.Str {
+				base[i] = pick(rng, cl, 1)[0]
+			}
+			for b := 0; b < 256; b++ {
+				if classOf(byte(b)) == c.Str[pos] {
+					x := append([]byte(nil), base...)
+					x[pos] = byte(b)
+					cands = append(cands, string(x))
+				}
+			}
+		}
+	} else {
+		for k := 0; k < max(1, c.NConc); k++ {
+			cands = append(cands, concretise(rng, c.Str, c.L))
+		}
+	}
+	for _, s := range cands {
 		if seen[s] {
 			continue
 		}
@@ -221,24 +261,53 @@ func runRecord(c *tcase, env *rt.Env) rt.Result {
 	rng := rand.New(rand.NewSource(env.Seed*31 + int64(c.Conc)))
 	total := 0
 	rollovers := 0
+	maxAhead := int64(0)
 	for _, g := range c.Gens {
 		var next func() uint64
+		var gp *psnow.Generator
 		machine := g.Machine
 		switch g.Kind {
 		case "pkg":
 			gen := psnow.New(g.Machine)
+			gp = gen
 			next = gen.Next
 		case "idgen":
 			gen := snowflake.NewIDGenerator(snowflake.WithMachineID(g.Machine))
+			gp = gen.Generator
 			next = func() uint64 { return uint64(gen.ID()) }
 		case "default":
 			if err := snowflake.SetGlobalMachineID(g.Machine); err != nil {
 				return rt.Infra(err.Error())
 			}
 			gen := snowflake.NewDefaultIDGenerator()
+			gp = gen.Generator
 			next = func() uint64 { return uint64(gen.ID()) }
 		default:
 			return rt.Infra("unknown generator kind " + g.Kind)
+		}
+		var pre []uint64
+		var until uint64 // stepback scenario: callers run (in bursts) until the wall clock has passed this time stamp
+		if g.Ahead > 0 {
+			// "The wall clock stepped back by g.Ahead ms": what the generator is left with is a state whose time is
+			// ahead of the clock, and ids that were already handed out for the milliseconds the clock will pass again.
+			// now() cannot be replaced, so the state word (first field of Generator, the only thing Next reads besides
+			// the clock) is positioned instead: 300 ms ahead, 100 000 ids are taken there (issued for real), then the
+			// state is moved g.Ahead ms further ahead and concurrent callers go on until the clock has passed the
+			// milliseconds of those first ids. A correct generator never goes back below its state.
+			sp := (*uint64)(unsafe.Pointer(gp))
+			nowStamp := func() uint64 { return uint64(time.Now().UnixNano()/1e6) - 1491696000000 }
+			A := nowStamp() + 300
+			atomic.StoreUint64(sp, (A-1)<<22|4095)
+			for k := 0; k < 100000; k++ {
+				pre = append(pre, next())
+			}
+			if pre[0]>>22 != A || pre[0]&4095 != 0 {
+				return rt.Infra(fmt.Sprintf("cannot position the generator state (first id has time %d seq %d, wanted %d/0): layout of snowflake.Generator changed?", pre[0]>>22, pre[0]&4095, A))
+			}
+			last := pre[len(pre)-1] >> 22
+			atomic.StoreUint64(sp, (last+uint64(g.Ahead)-1)<<22|4095)
+			until = last + 10
+			maxAhead = max(maxAhead, int64(last+uint64(g.Ahead))-int64(nowStamp()))
 		}
 		out := make([][]uint64, g.Callers)
 		var start, done sync.WaitGroup
@@ -256,6 +325,12 @@ func runRecord(c *tcase, env *rt.Env) rt.Result {
 			go func(ci int) {
 				defer done.Done()
 				start.Wait()
+				for until > 0 && uint64(time.Now().UnixNano()/1e6)-1491696000000 <= until {
+					for n := 0; n < 200; n++ {
+						out[ci] = append(out[ci], next())
+					}
+					time.Sleep(300 * time.Microsecond)
+				}
 				for n := 0; n < g.Calls; n++ {
 					if d, ok := pauseAt[n]; ok {
 						time.Sleep(d)
@@ -275,6 +350,12 @@ func runRecord(c *tcase, env *rt.Env) rt.Result {
 		done.Wait()
 		var all []rec
 		minT := ^uint64(0)
+		for n, id := range pre {
+			all = append(all, rec{g.Callers + 1, n + 1, id})
+			if t := id >> 22; t < minT {
+				minT = t
+			}
+		}
 		for ci := range out {
 			for n, id := range out[ci] {
 				all = append(all, rec{ci + 1, n + 1, id})
@@ -329,7 +410,7 @@ func runRecord(c *tcase, env *rt.Env) rt.Result {
 		return rt.Infra(err.Error())
 	}
 	f.Close()
-	return rt.Result{OK: true, Evals: total, Nontrivial: true, Extra: map[string]interface{}{"ids": total, "sequence_rollovers": rollovers}}
+	return rt.Result{OK: true, Evals: total, Nontrivial: true, Extra: map[string]interface{}{"ids": total, "sequence_rollovers": rollovers, "max_state_ahead_ms": maxAhead}}
 }
 
 func main() {
